@@ -322,6 +322,7 @@ func runC13(c *Ctx) {
 	}
 	c.Assumptions = append(c.Assumptions, "NOT decided: that white space and comments never produce or split tokens and that the literal scanners stop where they should (skipWhitespace, scanComment, scanString, scanRawString, scanChar are loops over the input)")
 	c.Trusted = append(c.Trusted, "go/types", "go/ssa", "checker/sx.go")
+	checkScanComment(c, p, "R13.4")
 	c.Explanation = "C13, thin: decided is that layout and spelling have no channel into the generated output other than the sequence of (type, text) pairs: the front-end token has no position field and no type of package ast holds a position (R13.1); a character literal's raw spelling is stored but never read — every consumer uses the decoded value or the rendering computed from it (R13.2); decoding follows Go's table (R13.3, shared with C20); a string literal's content is its text without the first and last byte whatever the quote character (R13.4). NOT decided: the scanner's loops (white space, comments, literal ends), which is why this is a thin claim."
 }
 
@@ -374,4 +375,120 @@ func typesPointerTo(p *Prog, rel, name string) types.Type {
 		return nil
 	}
 	return types.NewPointer(t)
+}
+
+// ---- R13.4: where a comment ends (doc: _lineComment : '/' '/' {.} '\n' ; _blockComment : '/' '*' {. | '*'} '*' '/' ;) ----
+
+func checkScanComment(c *Ctx, p *Prog, rule string) {
+	fn := p.Func("internal/frontend/scanner", "*Scanner.scanComment")
+	if fn == nil {
+		c.Undecided(rule, "scanner scanComment", "function not found")
+		return
+	}
+	hs := loopHeaders(fn)
+	if len(hs) != 2 {
+		c.Undecided(rule, "scanner scanComment", fmt.Sprintf("expected two loops (line comment, block comment), found %d", len(hs)), p.FnPos(fn))
+		return
+	}
+	recv := fn.Params[0].Name()
+	mk := func(chs []int64) (*Region, *MapWorld, *int) {
+		n := 0
+		ints := map[string]int64{}
+		for i, v := range chs {
+			ints[fmt.Sprintf("CH%d", i)] = v
+		}
+		consume := func(r *Run, cc *ssa.CallCommon, args []Val) (Val, error) {
+			n++
+			r.Event("consume")
+			r.SetCell(recv, ".ch", VSym{Name: fmt.Sprintf("CH%d", n)})
+			return VTuple{}, nil
+		}
+		reg := &Region{Fn: fn, Cuts: cutSet(hs...), Summaries: map[string]Summary{
+			"*.next":   consume,
+			"*.expect": consume,
+			"*.error":  func(r *Run, cc *ssa.CallCommon, args []Val) (Val, error) { r.Event("error"); return VTuple{}, nil },
+		}, Lazy: func(o *Obj, path string, t types.Type) Val {
+			if o.Name == recv && path == ".ch" {
+				return VSym{Name: "CH0"}
+			}
+			return nil
+		}}
+		return reg, &MapWorld{Ints: ints, IntFn: func(s string) (int64, bool) { return 7, strings.HasSuffix(s, ".Column") }}, &n
+	}
+	only := func(out *Outcome, pre string) string { return evs(out, pre) }
+	// entry
+	for _, wd := range []struct {
+		name string
+		ch   int64
+		head *ssa.BasicBlock
+		want string
+	}{{"after '/' comes '/': line comment", '/', hs[0], ""}, {"after '/' comes '*': block comment, the '*' is consumed before the end is looked for", '*', hs[1], "consume"}} {
+		reg, w, _ := mk([]int64{wd.ch, 'x', 'y'})
+		out := InterpretSafe(reg, w)
+		stepOb(c, out, rule, "scanComment entry: "+wd.name, termOf(out) == "cut" && out.CutBlock == wd.head && only(out, "consume")+only(out, "error") == wd.want, fmt.Sprintf("%s events=[%s] %s; required events [%s]", termOf(out), evs(out), out.Undecided, wd.want), p.FnPos(fn))
+	}
+	// block comment loop
+	for _, wd := range []struct {
+		name string
+		chs  []int64
+		want string
+	}{
+		{"end of input", []int64{-1}, "error|return"},
+		{"'*' followed by '/'", []int64{'*', '/', 'x'}, "consume; consume|return"},
+		{"'*' followed by something else", []int64{'*', 'x'}, "consume|cut"},
+		{"'*' followed by '*'", []int64{'*', '*'}, "consume|cut"},
+		{"'/' (no star before it)", []int64{'/', '*'}, "consume|cut"},
+		{"any other character", []int64{'q', '/'}, "consume|cut"},
+	} {
+		reg, w, _ := mk(wd.chs)
+		reg.Start = hs[1]
+		reg.PreWorld = &MapWorld{Ints: map[string]int64{"CH0": '*', "CH1": 'x'}}
+		// the prologue consumed one character: renumber
+		reg.AtStart = func(r *Run, fr *frame) { r.SetCell(recv, ".ch", VSym{Name: "CH0"}) }
+		n0 := 0
+		reg.Summaries["*.next"] = func(r *Run, cc *ssa.CallCommon, args []Val) (Val, error) {
+			n0++
+			r.Event("consume")
+			r.SetCell(recv, ".ch", VSym{Name: fmt.Sprintf("CH%d", n0)})
+			return VTuple{}, nil
+		}
+		reg.Summaries["*.expect"] = reg.Summaries["*.next"]
+		reg.AtStart = func(r *Run, fr *frame) { n0 = 0; r.SetCell(recv, ".ch", VSym{Name: "CH0"}) }
+		out := InterpretSafe(reg, w)
+		t := termOf(out)
+		if strings.HasPrefix(t, "return") {
+			t = "return"
+		}
+		got := evs(out, "consume", "error") + "|" + t
+		stepOb(c, out, rule, "block comment, next is "+wd.name, got == wd.want && (t != "cut" || out.CutBlock == hs[1]), fmt.Sprintf("got %s %s; required %s — the comment ends with the first '*' '/' after the opening '/' '*'", got, out.Undecided, wd.want), p.FnPos(fn))
+	}
+	// line comment loop
+	for _, wd := range []struct {
+		name string
+		chs  []int64
+		want string
+	}{
+		{"end of input", []int64{-1}, "error|return"},
+		{"a character followed by a line break", []int64{'x', '\n'}, "consume|return"},
+		{"a character followed by another", []int64{'x', 'y'}, "consume|cut"},
+	} {
+		reg, w, _ := mk(wd.chs)
+		reg.Start = hs[0]
+		reg.PreWorld = &MapWorld{Ints: map[string]int64{"CH0": '/'}}
+		n0 := 0
+		reg.Summaries["*.next"] = func(r *Run, cc *ssa.CallCommon, args []Val) (Val, error) {
+			n0++
+			r.Event("consume")
+			r.SetCell(recv, ".ch", VSym{Name: fmt.Sprintf("CH%d", n0)})
+			return VTuple{}, nil
+		}
+		reg.AtStart = func(r *Run, fr *frame) { n0 = 0; r.SetCell(recv, ".ch", VSym{Name: "CH0"}) }
+		out := InterpretSafe(reg, w)
+		t := termOf(out)
+		if strings.HasPrefix(t, "return") {
+			t = "return"
+		}
+		got := evs(out, "consume", "error") + "|" + t
+		stepOb(c, out, rule, "line comment, next is "+wd.name, got == wd.want && (t != "cut" || out.CutBlock == hs[0]), fmt.Sprintf("got %s %s; required %s — the comment runs up to, not including, the line break; without one it is not terminated", got, out.Undecided, wd.want), p.FnPos(fn))
+	}
 }
